@@ -5,10 +5,10 @@
 //   obj (D0 D1 …) (A0 A1 …)
 //
 //   D    ::= (PARENT (ATTR*) EQ EIT SER)         definition i is named T<i>; PARENT ::= - | <index of an earlier definition>
-//   ATTR ::= (NAME TY KIND DFLT) | (NAME TY KIND DFLT o)
+//   ATTR ::= (NAME TY KIND DFLT [o] [f|nf])
 //                                                NAME: plain member name (atom); KIND ::= n | c | d | g | r
 //                                                (normal, constant, derived, given_or_derived, reference); DFLT ::= - | VAL;
-//                                                a trailing `o` is `override => true`
+//                                                `o` = `override => true`, `f` / `nf` = `final => true` / `false`
 //   TY   ::= int | str | bool | any | (opt TY)
 //   VAL  ::= (i N) | (s xHEX) | (b t|f) | u
 //   EQ   ::= - | (s NAME) | (l NAME*)            `equality` absent / given as a string / given as an array
@@ -236,7 +236,11 @@ type attr struct {
 	kind     string // n c d g r
 	dflt     *val
 	override bool
+	final    string // "" (absent) | "f" (final => true) | "nf" (final => false)
 }
+
+// isFinal: declared, and implied for a constant
+func (a *attr) isFinal() bool { return a.kind == "c" || a.final == "f" }
 
 type def struct {
 	parent int // -1 = none
@@ -311,10 +315,22 @@ func defOf(e sx.Sexp) def {
 		panic(fmt.Errorf("bad attribute list %s", e.List[1]))
 	}
 	for _, a := range e.List[1].List {
-		if !a.IsList || (len(a.List) != 4 && !(len(a.List) == 5 && !a.List[4].IsList && a.List[4].Atom == "o")) {
+		if !a.IsList || len(a.List) < 4 || len(a.List) > 6 {
 			panic(fmt.Errorf("bad attribute %s", a))
 		}
-		at := attr{name: nameOf(a.List[0]), ty: tyOf(a.List[1]), kind: atomOf(a.List[2]), override: len(a.List) == 5}
+		at := attr{name: nameOf(a.List[0]), ty: tyOf(a.List[1]), kind: atomOf(a.List[2])}
+		flags := a.List[4:]
+		if len(flags) > 0 && atomOf(flags[0]) == "o" {
+			at.override = true
+			flags = flags[1:]
+		}
+		if len(flags) > 0 && (atomOf(flags[0]) == "f" || atomOf(flags[0]) == "nf") {
+			at.final = atomOf(flags[0])
+			flags = flags[1:]
+		}
+		if len(flags) > 0 {
+			panic(fmt.Errorf("bad attribute flags %s", a))
+		}
 		if strings.Index("ncdgr", at.kind) < 0 || len(at.kind) != 1 {
 			panic(fmt.Errorf("bad kind %s", at.kind))
 		}
@@ -482,7 +498,7 @@ func mkSpec(defs []def) *spec {
 			sa := sattr{attr: a, owner: i, ety: a.ty}
 			switch a.kind {
 			case "c":
-				if a.dflt == nil {
+				if a.dflt == nil || a.final == "nf" { // a constant is final
 					wf = false
 				}
 			case "d", "g":
@@ -502,10 +518,10 @@ func mkSpec(defs []def) *spec {
 				sa.hasDflt, sa.dv = true, val{k: "u"}
 			}
 			if k, ok := inheritedIdx[a.name]; ok {
-				// an overriding attribute takes the place of the one it overrides: it must say `override => true`, a constant
-				// (final) is overridden by a constant only, and the type may only narrow
+				// an overriding attribute takes the place of the one it overrides: it must say `override => true`, a final
+				// member is overridden only constant by constant, and the type may only narrow
 				pa := all[k]
-				if !a.override || (pa.kind == "c" && a.kind != "c") || !asgSpec(pa.ety, sa.ety) {
+				if !a.override || (pa.isFinal() && !(pa.kind == "c" && a.kind == "c")) || !asgSpec(pa.ety, sa.ety) {
 					wf = false
 				}
 				all[k] = sa
@@ -629,13 +645,16 @@ func (d *def) text(name, parent string) string {
 	if len(d.attrs) > 0 {
 		var as []string
 		for _, a := range d.attrs {
-			if a.kind == "n" && a.dflt == nil && !a.override {
+			if a.kind == "n" && a.dflt == nil && !a.override && a.final == "" {
 				as = append(as, quote(a.name)+" => "+a.ty.text())
 				continue
 			}
 			fs := []string{"type => " + a.ty.text()}
 			if a.override {
 				fs = append(fs, "override => true")
+			}
+			if a.final != "" {
+				fs = append(fs, "final => "+strconv.FormatBool(a.final == "f"))
 			}
 			if k := kindName(a.kind); k != "" {
 				fs = append(fs, "kind => "+k)
@@ -709,13 +728,16 @@ func (d *def) initHash(name string, parent px.Type) *types.Hash {
 	if len(d.attrs) > 0 {
 		var as []*types.HashEntry
 		for _, a := range d.attrs {
-			if a.kind == "n" && a.dflt == nil && !a.override {
+			if a.kind == "n" && a.dflt == nil && !a.override && a.final == "" {
 				as = append(as, types.WrapHashEntry2(a.name, a.ty.px()))
 				continue
 			}
 			fs := []*types.HashEntry{types.WrapHashEntry2("type", a.ty.px())}
 			if a.override {
 				fs = append(fs, types.WrapHashEntry2("override", types.WrapBoolean(true)))
+			}
+			if a.final != "" {
+				fs = append(fs, types.WrapHashEntry2("final", types.WrapBoolean(a.final == "f")))
 			}
 			if k := kindName(a.kind); k != "" {
 				fs = append(fs, types.WrapHashEntry2("kind", types.WrapString(k)))
@@ -1272,7 +1294,7 @@ func sameShape(s *spec, t1, t2 int) bool {
 	}
 	for i := range s.all[t1] {
 		a, b := s.all[t1][i], s.all[t2][i]
-		if a.name != b.name || a.kind != b.kind || a.ty.sexp().String() != b.ty.sexp().String() || a.hasDflt != b.hasDflt || a.dv.String() != b.dv.String() || a.override != b.override {
+		if a.name != b.name || a.kind != b.kind || a.ty.sexp().String() != b.ty.sexp().String() || a.hasDflt != b.hasDflt || a.dv.String() != b.dv.String() || a.override != b.override || a.final != b.final {
 			return false
 		}
 	}
